@@ -265,6 +265,20 @@ def check_key(ctx, curve, dom, d, named, lzhint=None):
         "two_keys": R.pem(blob0, "EC PRIVATE KEY") + R.pem(R.ec_private_key((d % (n - 1) + 1).to_bytes(Ln, "big"), oid, None), "EC PRIVATE KEY"),
         "lower_case_label": R.pem(blob0, "EC PRIVATE KEY").replace(b"EC PRIVATE KEY", b"ec private key"), "five_dashes_more": R.pem(blob0, "EC PRIVATE KEY").replace(b"-----", b"------"),
     }
+    # what other tools write around the armour (openssl pkcs12 -nodes puts "Bag Attributes" with a UTF-8 friendlyName in front): whole
+    # lines of text before and after the block, as bytes and as str - these ARE keys written by an independent encoder: they must load
+    pre_txt = "Bag Attributes\n    friendlyName: кл\u044eч-\u00df\u00e9 \u4e2d\n    localKeyID: 01 02\nKey Attributes: <No Attributes>\n"
+    for lay, data in (("preamble_utf8", pre_txt.encode("utf-8") + R.pem(blob0, "EC PRIVATE KEY")), ("preamble_and_trailer_utf8", pre_txt.encode("utf-8") + R.pem(blob0, "EC PRIVATE KEY") + "конец\n".encode("utf-8")),
+                      ("preamble_ascii_crlf", b"subject=CN = test\r\nissuer=CN = test\r\n" + R.pem(blob0, "EC PRIVATE KEY", b"\r\n"))):
+        for as_text in (False, True):
+            ctx.case("foreign.pem_with_text", key="%s|%s|%s" % (cname, lay, as_text))
+            try:
+                k2 = ecdsa.SigningKey.from_pem(data.decode("utf-8") if as_text else data, hashlib.sha256)
+                ok = int(k2.privkey.secret_multiplier) == d and k2.curve.name == cname
+                ctx.check(ok, "foreign_key_loads_to_other_value", "%s d=%d: PEM with surrounding text (%s, %s) loads to another key" % (cname, d, lay, "str" if as_text else "bytes"), dict(curve=cname, d=d, blob=data))
+            except Exception as ex:
+                ctx.violation("foreign_key_rejected", "%s d=%d: PEM private key with whole lines of text around the armour (%s, given as %s) rejected: %s: %s" % (cname, d, lay, "str" if as_text else "bytes", type(ex).__name__, ex),
+                              dict(curve=cname, d=d, blob=data))
     for lay, data in layouts.items():
         for as_text in (False, True):
             ctx.case("foreign.pem_layout", key="%s|%s|%s" % (cname, lay, as_text))
